@@ -62,8 +62,12 @@ def cover_if(ctx, label, cond):
     if cond is True:
         ctx.cover(label)
     elif cond is not False and label not in ctx.I.covers:
-        if ctx.I._check(cond) is not None:
-            ctx.cover(label)
+        from engine import Unsupported
+        try:
+            if ctx.I._check(cond) is not None:
+                ctx.cover(label)
+        except Unsupported:
+            pass  # solver gave up on a reachability witness: the label is simply not counted on this path
 
 
 @harness('c07_partition', covers=['multibyte-last-char', 'tag-present', 'four-byte-char'])
